@@ -337,6 +337,9 @@ pub fn key_alphabet() -> Vec<(&'static str, Vec<u8>)> {
         let name: &'static str = Box::leak(format!("key:{}", k.escape_default()).into_boxed_str());
         v.push((name, rlp::enc_str(k.as_bytes())));
     }
+    for (l, k) in [("key:1byte-80", vec![0x80u8]), ("key:1byte-c3", vec![0xc3]), ("key:1byte-ff", vec![0xff]), ("key:1byte-00", vec![0x00]), ("key:1byte-7f", vec![0x7f]), ("key:2byte-ff00", vec![0xff, 0x00])] {
+        v.push((l, rlp::enc_str(&k)));
+    }
     v.push(("key:list", vec![0xc1, 0x61]));
     v.push(("key:noncanon", vec![0x81, 0x61]));
     v.push(("key:longform", vec![0xb8, 0x01, 0x61]));
@@ -673,6 +676,36 @@ pub fn sigfield_mutants(s: &Shape, others: &[Shape]) -> Vec<Case> {
         if both.len() < 64 {
             push("leading-zeros-stripped", both, &s.items);
         }
+    }
+    // other encodings of the same (r, s): ASN.1 DER, DER with a sighash byte, r||s||recovery id, hex text
+    if good.len() == 64 && matches!(s.signer, Signer::Secp(_)) {
+        let int = |b: &[u8]| -> Vec<u8> {
+            let mut v: Vec<u8> = b.iter().cloned().skip_while(|x| *x == 0).collect();
+            if v.is_empty() || v[0] & 0x80 != 0 {
+                v.insert(0, 0);
+            }
+            let mut out = vec![0x02, v.len() as u8];
+            out.extend(v);
+            out
+        };
+        let mut body = int(&good[..32]);
+        body.extend(int(&good[32..]));
+        let mut der = vec![0x30, body.len() as u8];
+        der.extend(body);
+        push("as-DER", der.clone(), &s.items);
+        let mut der1 = der.clone();
+        der1.push(0x01);
+        push("as-DER+sighash-byte", der1, &s.items);
+        for v in [0u8, 1, 27, 28] {
+            let mut rsv = good.clone();
+            rsv.push(v);
+            push("r||s||recovery-id", rsv, &s.items);
+        }
+        push("as-hex-text", hex::encode(&good).into_bytes(), &s.items);
+        // s||r swapped
+        let mut sr = good[32..].to_vec();
+        sr.extend_from_slice(&good[..32]);
+        push("s||r", sr, &s.items);
     }
     // over the bare payload without list header, over sig||content
     push("over-unframed-payload", s.signer.sign(&content[rlp::header(&content, true).unwrap().hlen..]), &s.items);
@@ -1020,10 +1053,44 @@ pub fn weak_ed_cases() -> Vec<Case> {
     out
 }
 
+/// Records signed by the LIBRARY itself (builder + one update), over the key alphabet: what the crate
+/// signs must be what an independent verifier checks, so its own records are judged like any input.
+pub fn library_signed_cases() -> Vec<Case> {
+    use bytes::Bytes;
+    fn go<S: Sch>(out: &mut Vec<Case>) {
+        let k = S::mk_key(0);
+        S::arm(&k, -1, 64);
+        for (kl, kraw) in key_alphabet() {
+            let Some(key) = rlp::as_str(&kraw).map(|b| b.to_vec()) else { continue };
+            if [&b"id"[..], b"secp256k1", b"ed25519"].contains(&key.as_slice()) {
+                continue;
+            }
+            for (rl, raw) in [("int1", vec![0x01u8]), ("list2", vec![0xc2, 0x01, 0x02]), ("str56", rlp::enc_str(&[0x61; 56]))] {
+                let built = real::guard(|| enr::Enr::<S::K>::builder().add_value_rlp(&key, Bytes::from(raw.clone())).build(&k));
+                if let Ok(Ok(e)) = built {
+                    out.push(Case { label: format!("library-signed<{}>/builder:{kl}={rl}", S::NAME), bytes: real::encode(&e), devs: 0, family: "sigfield" });
+                    let mut e2 = e.clone();
+                    if let Ok(Ok(_)) = real::guard(|| e2.set_seq(300, &k)) {
+                        out.push(Case { label: format!("library-signed<{}>/builder+set_seq:{kl}={rl}", S::NAME), bytes: real::encode(&e2), devs: 0, family: "sigfield" });
+                    }
+                }
+            }
+        }
+    }
+    let mut out = vec![];
+    go::<K256S>(&mut out);
+    #[cfg(feature = "cfg-a")]
+    go::<LibSecpS>(&mut out);
+    go::<EdS>(&mut out);
+    go::<CombSecpS>(&mut out);
+    out
+}
+
 pub fn authenticity_cases(tier: Tier) -> Vec<Case> {
     let seeds = seed_records(tier);
     let shapes: Vec<Shape> = seeds.iter().map(|(s, _)| s.clone()).collect();
     let mut cases = weak_ed_cases();
+    cases.extend(library_signed_cases());
     for (s, b) in &seeds {
         let quick_subset = s.label.ends_with(":minimal") || s.label.ends_with(":all-reserved") || s.label.ends_with(":lists") || s.label.ends_with(":foreign-key-valid");
         if tier == Tier::Quick && !quick_subset {
